@@ -23,25 +23,26 @@ import (
 )
 
 type options struct {
-	repo     string
-	pkg      string
-	entry    string
-	files    string
-	workers  int
-	out      string
-	known    string
-	dump     string
-	feasMS   int
-	assertMS int
-	maxSteps int
-	samples  int
-	seed     int
-	timeout  int
-	summary  string
-	params   string
-	keepPC   bool
-	budget   int
-	solver   string
+	repo      string
+	pkg       string
+	entry     string
+	files     string
+	workers   int
+	out       string
+	known     string
+	dump      string
+	feasMS    int
+	assertMS  int
+	maxSteps  int
+	samples   int
+	seed      int
+	timeout   int
+	summary   string
+	params    string
+	keepPC    bool
+	budget    int
+	solver    string
+	modelEval bool
 }
 
 func parseFlags(args []string) *options {
@@ -66,6 +67,7 @@ func parseFlags(args []string) *options {
 	fs.BoolVar(&o.keepPC, "keep-pc", false, "keep path conditions in samples")
 	fs.IntVar(&o.budget, "budget", 0, "paths per work item (0 = adaptive)")
 	fs.StringVar(&o.solver, "solver", "z3-new -in", "solver command")
+	fs.BoolVar(&o.modelEval, "model-eval", false, "decide the model-satisfied side of a branch without a query (experimental)")
 	fs.Parse(args)
 	return o
 }
@@ -173,6 +175,7 @@ func worker(o *options) {
 	e.FeasMS, e.AssertMS, e.MaxSteps, e.SampleN, e.SampleSeed = o.feasMS, o.assertMS, o.maxSteps, o.samples, o.seed
 	e.DumpDir = o.dump
 	e.KeepPC = o.keepPC
+	e.ModelEval = o.modelEval
 	if o.known != "" {
 		e.Known = interp.LoadKnown(o.known)
 	}
@@ -396,7 +399,6 @@ func master(o *options, rawArgs []string) int {
 	}
 	return 0
 }
-
 
 // replay runs one recorded path on the interpreter with the inputs pinned
 // (debugging aid: compares the engine's view with the native replay).
